@@ -48,6 +48,7 @@ type Solver struct {
 	LastErr    string
 	TimeoutMs  int
 	QuickMs    int
+	FeasMs     int
 	Stage2     int
 	quickFails int
 	skipQuick  int
@@ -55,7 +56,7 @@ type Solver struct {
 }
 
 func NewSolver(kind string, timeoutMs int) (*Solver, error) {
-	s := &Solver{Kind: kind, TimeoutMs: timeoutMs, QuickMs: 100}
+	s := &Solver{Kind: kind, TimeoutMs: timeoutMs, QuickMs: 100, FeasMs: 2000}
 	if err := s.start(); err != nil {
 		return nil, err
 	}
@@ -339,6 +340,11 @@ func (s *Solver) CheckAssuming(t *Term) Result {
 // CheckFeasible is a quick incremental-only check (no fallback): an unknown
 // answer is returned as such and the caller treats the literal as feasible.
 func (s *Solver) CheckFeasible(t *Term, syms []*Term) (Result, map[string]uint64) {
+	saved := s.TimeoutMs
+	if s.FeasMs > 0 && s.FeasMs < saved {
+		s.TimeoutMs = s.FeasMs
+	}
+	defer func() { s.TimeoutMs = saved }()
 	s.define(t)
 	s.Push()
 	s.send("(assert " + Ref(t) + ")")
